@@ -615,3 +615,19 @@ pub fn replay(kind: &str, case: &J, rec: &mut Rec) -> Verdict {
         _ => Verdict::fail("infra:unknown-kind", kind),
     }
 }
+
+/// libFuzzer input layout of the `zinc_decode` target: first byte = reader plan, rest = document
+pub fn split_fuzz_input(data: &[u8]) -> (ReaderPlan, &[u8]) {
+    match data.split_first() {
+        Some((b, rest)) => (
+            ReaderPlan {
+                chunks: if b & 1 == 1 { vec![1 + (b >> 4)] } else { vec![] },
+                interrupt_every: (b >> 1) & 3,
+                fail_at: None,
+                fail_forever: false,
+            },
+            rest,
+        ),
+        None => (ReaderPlan::default(), data),
+    }
+}
